@@ -205,6 +205,28 @@ theorem inv0_step (s : Sys) (h : Inv0 s) (op : Op) : Inv0 (s.step op).1 := by
     · exact h
     · rename_i hg
       exact inv0_setNode s h (up_of_not s hg) i _ (fun hr => h.cnt i hr) (fun ha => by cases ha)
+  | snap =>
+    show Inv0 (s.stepSnap).1
+    unfold stepSnap
+    split
+    · exact h
+    · refine ⟨?_, ?_, ?_⟩
+      · intro i hr
+        show (if (s.node i).att = .rw then _ else s.node i).rev = (if (s.node i).att = .rw then _ else s.node i).log.length
+        have hr' : (s.node i).rebuilding = false := by
+          have : (if (s.node i).att = .rw then { s.node i with snaps := (s.node i).snaps ++ [(s.nextSnap, (s.node i).log)] } else s.node i).rebuilding = false := hr
+          split at this <;> exact this
+        split <;> exact h.cnt i hr'
+      · intro i ha
+        show (if (s.node i).att = .rw then _ else s.node i).log = s.stream ∧ (if (s.node i).att = .rw then _ else s.node i).rev = s.stream.length
+        have ha' : (s.node i).att = .rw := by
+          have : (if (s.node i).att = .rw then { s.node i with snaps := (s.node i).snaps ++ [(s.nextSnap, (s.node i).log)] } else s.node i).att = .rw := ha
+          split at this <;> exact this
+        split <;> exact h.rw i ha'
+      · intro hu
+        rename_i hg
+        have : s.up = false := hu
+        exact absurd (Or.inl (by simp [this])) hg
   | stop =>
     show Inv0 (s.stepStop).1
     unfold stepStop
